@@ -181,10 +181,11 @@ CHECKS = {
                    "C05_no_gap — at the moment any block is handed over, all earlier blocks with watched logs already were (the last-processed marker cannot pass an unstored event block, the driver processing the channel in order); "
                    "C05_grouping — the grouping loop of getEventsByBlockRangeWithRetry over the raw log list (ascending by block, log order inside a block) yields exactly the event blocks of the range, each with all of its own logs in log order and none of another block's (so `eventsIn`, which the loop model uses, is what the code computes); "
                    "C05_retry_transparent — whatever the header queries answer (hash mismatches between eth_getLogs and the header query), when the range fetch returns blocks they are exactly the event blocks of the range, and it returns as soon as one of its 6 attempts sees no mismatch. "
+                   "PARTIAL: the range fetch may also GIVE UP (six disagreeing header answers in a row) and the loop then treats the range as empty — runG / C05_giveup_false prove on the model that an event block below the finalized block is then skipped for good (the theorems above assume no give-up: runG_eq_run), and KNOWN-FINDING F6 replays exactly that schedule on the real code on every run. "
                    "Tie: the real sync.EVMDownloader.Download loop incl. GetEventsByBlockRange / GetLogs (topic + Removed filtering, header cross-check with scripted foreign headers / not-found / transient errors) against a scripted client serving the same chain and observation script for a fixed number of iterations (verif hook on the loop's iteration limit), output compared with the model; "
                    "the real EVMDriver.Sync (scenario reorgsync): after every start, restart (incl. restarts at which the first reads of the last-processed marker fail) and rewind the driver must start its downloader right after the last stored block.",
         level_note="Trusted: Lean kernel; model/code correspondence (generator-bounded). Admissibility = what WaitForNewBlocks guarantees (a returned tip exceeds the last one) and start <= tip+1. The chain is fixed (reorgs: C06). The driver's retry loop and the hand-over through the Go channel are exercised by the store scenarios (C07), not modelled here; "
-                   "the six-mismatch give-up path of getEventsByBlockRangeWithRetry belongs to C06.",
+                   "the six-mismatch give-up path of getEventsByBlockRangeWithRetry is known finding F6 (modelled, witnessed, replayed).",
         rule="seeded: chunk in {0,1,2,3,7,10,50}, event density 5-80%, 1-3 watched logs per event block plus logs of other topics and Removed logs, 4-17 iterations of strictly increasing tips (occasional jumps of 20+), finality lag in {0,1,3,8,100} or pointer at/above the tip or frozen, 8% failing finalized lookups, 40% of the runs with 1-4 faulty header answers (foreign hash / not found / error); distinct non-trivial = distinct run lines; reorgsync as for C06 (40% of its restarts with failing marker reads)",
         assumptions=["tips returned by WaitForNewBlocks exceed the last seen tip", "start <= first tip + 1", "fixed chain"],
         trusted_base=["hand model Model/Downloader.lean"],
